@@ -9,7 +9,8 @@ RULE = ("fault-script scenarios on the real idempotent AsyncProducer (Idempotent
         "timer, MaxMessages} x 3-8 messages in 1-3 waves (thorough: up to 40 in 6 waves) x fault scripts of <= 3 requests (thorough <= 11) over per-partition "
         "{ok, retriable before append, error after append (lost acknowledgement answered per partition), leader moved, fatal, missing block} and, in one scenario "
         "of six, connection-level {dropped before append, acknowledgement lost after append}, x steered schedules (a goroutine held at bridge.send / bp.response / "
-        "retryBatch.start / pp.recv / bp.recv / pp.send while the next wave is submitted) x seeded jitter. Per run: the monitor (no id appended twice, every "
+        "retryBatch.start / pp.recv / bp.recv / pp.send while the next wave is submitted) x seeded jitter "
+        "x an application that recycles message objects (later messages sent in the *ProducerMessage objects that came back on Successes()/Errors(), also while the partition is in a retry level with the fin marker held: parked, sent by flushRetryBuffers). Per run: the monitor (no id appended twice, every "
         "success in the log exactly once at the reported offset, batches contiguous per epoch, resent batch identical, producer id) and one Coq case (every request "
         "+ fault re-decided by the model's broker rules and compared with the simulator's verdicts/answers/logs; the sequence stamps replayed through the "
         "transaction-manager functions; every retryBatch goroutine replayed through Actors.rb_step). Non-trivial = a request was faulted or two messages share a partition")
@@ -25,7 +26,8 @@ def run(c):
     c.trust("atomicity abstraction of the actor composition coq/Producer/Compose.v (one handler invocation = one step; unbounded FIFO channels), tied to the code by "
             "the C01 check's local trace validation")
     c.assume("idempotent mode as config.go Validate demands it: Idempotent, Net.MaxOpenRequests = 1, RequiredAcks = WaitForAll, Retry.Max >= 1, Version >= 0.11")
-    c.assume("one producer id per producer (InitProducerID once); message identity = ProducerMessage.Metadata / record value; each identity submitted once")
+    c.assume("one producer id per producer (InitProducerID once); message identity = ProducerMessage.Metadata / record value; each identity submitted once "
+             "(a returned OBJECT may be sent again with a new identity: ProducerMessage.clear, c05_returned_message_is_fresh)")
     c.assume("replicated log abstraction: the producer state of a partition survives a leader move")
     # proposed known findings not yet merged into KNOWN_FINDINGS.json by the coordinator are honoured from the notes file
     prop = os.path.join(os.path.dirname(os.path.abspath(__file__)), "notes", "C05_known_findings.json")
@@ -42,7 +44,7 @@ def run(c):
         return
     c.coq_properties()
     from decgen_tie import run_decgen
-    run_decgen(c, "C05")   # regenerated leaf logic (go/decgen) vs the proved golden coq/Gen/DecC05.v (tied to idem_cfg by C05/TieGen.v)
+    run_decgen(c, "C05")   # Config.Validate clauses + ProducerMessage.clear vs the proved golden coq/Gen/DecC05.v (tied to idem_cfg / fresh_of by C05/TieGen.v)
     run_decgen(c, "C01")   # getAndIncrementSequenceNumber / bumpEpoch / stamping condition vs coq/Gen/DecC01.v (tied to txn_stamp / txn_bump)
     b = c.go_build("c05corr")
     if not b:
